@@ -239,7 +239,7 @@ func (w *world) quiesce(eps [][]*endpoint) {
 			go func(e *endpoint) {
 				defer wg.Done()
 				if !w.fence(e, allTopics) {
-					w.res.inconclusive("%s: fence %d->%d outstanding after watchdog", w.name, e.n.idx, e.peer.idx)
+					w.gaveUp("%s: fence %d->%d outstanding after watchdog", w.name, e.n.idx, e.peer.idx)
 				}
 			}(e)
 		}
@@ -287,7 +287,7 @@ func (w *world) quiesce(eps [][]*endpoint) {
 	}
 	if !waitFor(watchdog, func() bool { anyDead(); return int64(want()) <= slack() }) {
 		// were the connections still up? then this is a loss that the watchdog, not the oracle, noticed
-		w.res.inconclusive("%s: %d SendTo messages outstanding after watchdog", w.name, want())
+		w.gaveUp("%s: %d SendTo messages outstanding after watchdog", w.name, want())
 	}
 	w.settle()
 }
@@ -342,7 +342,7 @@ func caseInboxFull(res *results, name string, rng *rand.Rand) {
 	// let the consumer empty the inbox first, or the markers below are dropped like the rest
 	waitFor(watchdog/3, func() bool { return b.p.GetInboxStats()[t] == 0 || w.connDead(c.a) })
 	if !w.fence(c.a, allTopics) {
-		res.inconclusive("%s: fence outstanding", name)
+		w.gaveUp("%s: fence outstanding", name)
 	}
 	dbg("fence done")
 	w.settle()
@@ -365,6 +365,7 @@ type rawScript struct {
 	forbid   string                // when set, messages completed from now on must not be delivered (kind of the violation)
 	sentPkts int
 	werr     error
+	last     *sentRec // the record of the message completed last by this script
 }
 
 type refAsm struct {
@@ -402,6 +403,7 @@ func (s *rawScript) packet(t lib.Topic, eof bool, b []byte) {
 			r.Forbid = s.forbid
 			s.w.registerHash(r, s.ref(t).sum(), s.ref(t).n)
 			r.ok.Store(1)
+			s.last = r
 		}
 		delete(s.asm, t)
 	}
@@ -649,7 +651,7 @@ func caseHostile(res *results, name, kind string, rng *rand.Rand) (aimedAtObserv
 	// the canary: a well-formed message after the script
 	canaryTopic := t2
 	s.whole(canaryTopic, 64+rng.Intn(2000))
-	canary := w.lastRec()
+	canary := s.last // (not "the newest record of the world": the honest neighbour keeps adding its own)
 	closedSeen := false
 	if expectClose {
 		// either the victim closes the connection (required) or it goes on and delivers the canary (violation,
@@ -668,7 +670,7 @@ func caseHostile(res *results, name, kind string, rng *rand.Rand) (aimedAtObserv
 		default:
 		}
 		if !ok {
-			res.inconclusive("%s: neither closed nor canary delivered before the watchdog", name)
+			w.gaveUp("%s: neither closed nor canary delivered before the watchdog", name)
 		}
 		w.permitLoss(r.idx, v.idx)
 		if closedSeen && v.p.Has(r.pub) {
@@ -696,14 +698,14 @@ func caseHostile(res *results, name, kind string, rng *rand.Rand) (aimedAtObserv
 					fmt.Printf("DEBUG %s legal script closed: %q\n", name, v.log.lastLines())
 				}
 			default:
-				res.inconclusive("%s: canary outstanding after watchdog", name)
+				w.gaveUp("%s: canary outstanding after watchdog", name)
 			}
 		}
 	}
 	close(stopHonest)
 	hw.Wait()
 	if !w.fence(hc.a, []lib.Topic{t1, t2}) {
-		res.inconclusive("%s: honest neighbour fence outstanding", name)
+		w.gaveUp("%s: honest neighbour fence outstanding", name)
 	}
 	w.settle()
 	w.evaluate(evalOpts{complete: true, ordered: true})
@@ -738,8 +740,6 @@ func caseHostile(res *results, name, kind string, rng *rand.Rand) (aimedAtObserv
 	}
 	return aimedAtObserved
 }
-
-func (w *world) lastRec() *sentRec { w.mu.Lock(); defer w.mu.Unlock(); return w.recs[len(w.recs)-1] }
 
 func (w *world) isDelivered(r *sentRec) bool {
 	w.mu.Lock()
@@ -812,7 +812,7 @@ func caseEarlySend(res *results, name string, rng *rand.Rand, stallLogger bool) 
 		// send at once, without waiting for the victim to finish AddPeer
 		s := &rawScript{w: w, e: re, victim: v.idx, asm: map[lib.Topic]*refAsm{}}
 		s.whole(t, size)
-		recp.Store(w.lastRec())
+		recp.Store(s.last)
 	}()
 	// the consumer pops the message as soon as it is there (it reads Sender the way the controller does)
 	go func() {
@@ -832,7 +832,7 @@ func caseEarlySend(res *results, name string, rng *rand.Rand, stallLogger bool) 
 	w.conns = append(w.conns, &conn{lk: lk, a: re, b: &endpoint{n: v, peer: r, mode: modePeerSet}})
 	w.mu.Unlock()
 	if !waitFor(watchdog, func() bool { rec := recp.Load(); return rec != nil && w.isDelivered(rec) }) {
-		res.inconclusive("%s: early message outstanding", name)
+		w.gaveUp("%s: early message outstanding", name)
 	}
 	w.settle()
 	w.evaluate(evalOpts{complete: true})
@@ -978,7 +978,7 @@ func caseTeardown(res *results, name, kind string, rng *rand.Rand, hold time.Dur
 	apiWG.Wait()
 	// the bystander connection must be complete
 	if !w.fence(c3.a, allTopics) {
-		res.inconclusive("%s: bystander fence outstanding", name)
+		w.gaveUp("%s: bystander fence outstanding", name)
 	}
 	dbg("fence done")
 	w.settle()
@@ -1045,7 +1045,7 @@ func caseSlowLink(res *results, name string, rng *rand.Rand) {
 	r := w.newRec(a.idx, b.idx, victim, 3, 0, 0, "direct")
 	c.a.send(w, r, makePayload(777, r.ID, w.mask))
 	if !w.fence(c.a, allTopics) {
-		res.inconclusive("%s: fence outstanding", name)
+		w.gaveUp("%s: fence outstanding", name)
 	}
 	w.settle()
 	w.evaluate(evalOpts{complete: true, ordered: true})
@@ -1083,12 +1083,12 @@ func caseLimit(res *results, name, which string, rng *rand.Rand) {
 	payload = nil
 	if which == "at" {
 		if !w.fence(c.a, allTopics) {
-			res.inconclusive("%s: fence outstanding", name)
+			w.gaveUp("%s: fence outstanding", name)
 		}
 	} else {
 		// the receiver must close; the sender notices when its stream is closed
 		if !waitFor(watchdog, func() bool { return !b.p.Has(a.pub) }) {
-			res.inconclusive("%s: receiver still has the peer after an over-limit message", name)
+			w.gaveUp("%s: receiver still has the peer after an over-limit message", name)
 		}
 		w.permitLoss(a.idx, b.idx)
 	}
